@@ -372,9 +372,11 @@ def observe_after(db):
     }
 
 
-def follow_up(db, T, same_thread=True, timeout=10.0):
+def follow_up(db, T, same_thread=True, timeout=120.0):
     """A following immediate write session; 'ok' | 'timeout' | exception name. Run in this or in another thread."""
     from pony import orm
+    if db.provider.transaction_lock.locked():
+        return 'timeout'          # nobody is running any more and the lock is held: the session would wait forever (seen, not timed)
     res = {}
     def work():
         try:
@@ -513,7 +515,7 @@ def run_session_case(case, workdir):
         if out['hung']:
             out['follow_same'] = 'skipped'
         else:
-            out['follow_same'] = follow_up(db, T, same_thread=True, timeout=case.get('timeout', 10.0))
+            out['follow_same'] = follow_up(db, T, same_thread=True, timeout=case.get('timeout', 120.0))
         # tidy this thread
         try:
             core.local.db2cache.clear(); core.local.db_context_counter = 0; core.local.db_session = None
@@ -526,7 +528,7 @@ def run_session_case(case, workdir):
     finished = threading.Event()
     dead = {}
     def watchdog():
-        if finished.wait(case.get('timeout', 8.0)): return
+        if finished.wait(case.get('timeout', 120.0)): return
         dead['deadlock'] = True
         while not finished.wait(0.2):
             for lk in (db.provider.transaction_lock, db.provider.pre_transaction_lock):
@@ -537,7 +539,7 @@ def run_session_case(case, workdir):
     try:
         if start == 'fresh':
             th = threading.Thread(target=in_thread, name='fresh', daemon=True)
-            th.start(); th.join(case.get('timeout', 8.0) + 20.0)
+            th.start(); th.join(case.get('timeout', 120.0) + 30.0)
             if th.is_alive():
                 return {'harness_error': 'session thread did not finish (deadlock)', 'deadlock': True}
         else:
@@ -548,7 +550,7 @@ def run_session_case(case, workdir):
         for w in CTL.cons.values():
             try: w.real.close()
             except Exception: pass
-        return {'harness_error': 'the session blocked on the provider lock for more than %.0f s (deadlock); trace so far: %r' % (case.get('timeout', 8.0), [t[:4] for t in CTL.trace][-8:]), 'deadlock': True}
+        return {'harness_error': 'the session blocked on the provider lock for more than %.0f s (deadlock); trace so far: %r' % (case.get('timeout', 120.0), [t[:4] for t in CTL.trace][-8:]), 'deadlock': True}
     out['trace'] = [t[:6] for t in CTL.trace]
     out['lock_events'] = list(CTL.lock_events)
     out['real_failures'] = list(CTL.real_failures)
@@ -558,7 +560,7 @@ def run_session_case(case, workdir):
     out['rows_before'] = rows0
     out['links_after'] = read_links(path)
     out['links_before'] = links0
-    out['follow_other'] = follow_up(db, T, same_thread=False, timeout=3.0 if out.get('hung') else case.get('timeout', 10.0))
+    out['follow_other'] = follow_up(db, T, same_thread=False, timeout=case.get('timeout', 120.0))
     for w in CTL.cons.values():
         try: w.real.close()
         except Exception: pass
@@ -569,6 +571,10 @@ def run_session_case(case, workdir):
 
 # ---------------------------------------------------------------------------------------------- mode: threads
 
+class SelfDeadlock(BaseException):
+    pass
+
+
 class OwnedLock(object):
     """threading.Lock with an owner: records a release of the unlocked lock (threading.Lock raises RuntimeError there) and a
     release by a thread that is not the one that acquired it (threading.Lock allows it: the holder loses its lock silently)"""
@@ -577,6 +583,10 @@ class OwnedLock(object):
         self.owner = None
         self.quiet = False
     def acquire(self, blocking=True, timeout=-1):
+        if blocking and self._l.locked() and self.owner == tname():
+            # the thread that holds the lock asks for it again: it would wait for itself forever (seen, not timed)
+            CTL.lock_events.append(['self-deadlock', tname()])
+            raise SelfDeadlock('the session thread blocks on the provider lock it holds itself')
         ok = self._l.acquire(blocking, timeout)
         if ok: self.owner = tname()
         return ok
@@ -692,7 +702,7 @@ def run_thread_case(case, workdir):
     db.provider.transaction_lock = txn_lock
     db.provider.pre_transaction_lock = pre_lock
     workers = {i: Worker('w%d' % i, db, T, results, bool(case.get('with_sem'))) for i in range(case['threads'])}
-    hard = case.get('timeout', 20.0)
+    hard = case.get('timeout', 180.0)      # backstop only: blocking is observed on the lock, never inferred from a timeout
     effective = []              # [thread, op, arg, outcome, lock_after]
     pending = {}                # thread -> (op, arg) of its blocked step
     failed = [None]
@@ -841,7 +851,7 @@ def crash_batch(payload, workdir):
                 os._exit(0)
             except BaseException:
                 os._exit(7)
-        return {'n': n, 'pid': pid, 'path': path, 'deadline': time.time() + float(case.get('timeout', 60.0))}
+        return {'n': n, 'pid': pid, 'path': path, 'deadline': time.time() + float(case.get('timeout', 300.0))}
     def finish(job, status):
         n, path = job['n'], job['path']
         if status is None:
@@ -1047,7 +1057,7 @@ def main():
                 try:
                     if mode == 'sessions':
                         o = run_session_case(case, workdir)
-                        if o.get('deadlock') or o.get('hung') or o.get('follow_other') == 'timeout': slow += 1
+                        if o.get('deadlock') or o.get('hung') or o.get('follow_other') == 'timeout' or any(e[0] == 'self-deadlock' for e in o.get('lock_events', [])): slow += 1
                         outs.append(o)
                     elif mode == 'threads':
                         o = run_thread_case(case, workdir)
